@@ -30,7 +30,8 @@ def gen(rng, tier, n):
         r0 = rng.random()
         if r0 < 0.14:
             # one Validate call that reaches one $dynamicRef through several dynamic scopes (sibling properties, ranged in random order)
-            o = c06.fork(rng) if rng.random() < 0.25 else c06.topo(rng, decoy_p=0.85)
+            rr = rng.random()
+            o = c06.fork(rng) if rr < 0.2 else c06.override_case(rng) if rr < 0.45 else c06.topo(rng, decoy_p=0.85)
             ops.append({"op": "purity", "args": {"schema": o["args"]["schema"], "docs": o["args"]["docs"], "base": o["args"]["base"],
                                                   "insts": rng.sample(o["args"]["insts"], min(10, len(o["args"]["insts"])))},
                         "meta": {"kw": 5, "dynamic": True}})
